@@ -86,6 +86,9 @@ def SigCodec.reference : SigCodec :=
                                                      -- BN_cmp dereferences it: modelled as `py:SIGSEGV`
       EC_GROUP_get_order(group, order); BN_rshift1(halforder, order)
       if BN_cmp(der_sig.s, halforder) > 0: BN_sub(der_sig.s, order, der_sig.s)
+                                                     -- for s > order the difference is NEGATIVE: i2d then
+                                                     -- answers -1 and `create_string_buffer(-1)` raises
+                                                     -- ValueError (observed; off the `sign` domain)
       derlen = i2d_ECDSA_SIG(der_sig, 0);  if derlen == 0: return None
       return the `derlen` bytes written by i2d_ECDSA_SIG -/
 def signatureToLowSWith (C : SigCodec) (sig : Bytes) : Res (Option Bytes) :=
@@ -93,6 +96,7 @@ def signatureToLowSWith (C : SigCodec) (sig : Bytes) : Res (Option Bytes) :=
   | none => .error (.py "SIGSEGV")
   | some (r, s) =>
     let halforder := C.order >>> 1
+    if s > halforder ∧ s > C.order then .error .valueerr else
     let s := if s > halforder then C.order - s else s
     let der := C.i2d r s
     if der.length = 0 then .ok none else .ok (some der)
@@ -226,6 +230,14 @@ def wifParse (chainSecretVersion : Nat) (nVersion : Nat) (payload : Bytes) : Res
 def pubOfSecret (secret : Bytes) (compressed : Bool) : Bytes :=
   Secp256k1.pubkeyOf (beNat secret) compressed
 
+/-- `CPubKey(buf).is_fullyvalid`: `o2i_ECPublicKey` succeeded.  OpenSSL parses every SEC 1 encoding
+    of a curve point — and also the one-byte encoding `00` of the point at infinity, which SEC 1 /
+    Bitcoin Core do not regard as a public key (observation O15). -/
+def isFullyValid (buf : Bytes) : Bool := buf == [0] || (Secp256k1.decode buf).isSome
+
+/-- `CPubKey.is_compressed` / `CKey.is_compressed`: `len(self) == 33` -/
+def isCompressed (pub : Bytes) : Bool := pub.length == 33
+
 /-! ### signed messages (bitcoin/signmessage.py) -/
 
 /-- `BitcoinMessage.serialize()`: `BytesSerializer` of magic then of message -/
@@ -254,14 +266,14 @@ def p2pkhText (chainPubkeyVersion : Nat) (pubkey : Bytes) : List Char :=
 /-- `VerifyMessage(address, message, sig)` after base64-decoding; `addrText` is `str(address)` of
     whatever object was passed (a P2PKH, P2SH or segwit address, or any other): the answer is the
     comparison of two texts.  `recover_compact` returning `False` makes `from_pubkey` raise
-    TypeError; a recovered key that is not fully valid raises CBitcoinAddressError. -/
+    TypeError; a recovered key that is not fully valid raises CBitcoinAddressError — "fully valid" in
+    OpenSSL's sense, which includes the infinity key `00` (O15). -/
 def verifyMessage (chainPubkeyVersion : Nat) (addrText : List Char) (magic msg sig : Bytes) : Res Bool := do
   let h ← msgDigest magic msg
   match ← recoverCompact h sig with
   | none => throw (.py "TypeError")
   | some pk =>
-      match Secp256k1.decode pk with
-      | none => throw .addrerr
-      | some _ => pure (decide (p2pkhText chainPubkeyVersion pk = addrText))
+      if isFullyValid pk then pure (decide (p2pkhText chainPubkeyVersion pk = addrText))
+      else throw .addrerr
 
 end BtcVerif.Model.Keys
